@@ -371,6 +371,18 @@ def u_pool_size(ip: Interp, th: PoolTheory):
         elif isinstance(v, IntV):
             ok = p0.size.eq_int(v.t)
         ip.require(s, "getter:post:reports-the-configured-maximum", ok, ("C15",), meta={"finding": "F5"})
+    # what the getter does get right although F5a is open: on a pool with nothing in flight it reports the configured maximum
+    # (keeps a different defect of the getter from hiding behind the open finding)
+    st = th.initial()
+    p_ = PView(st)
+    st.assume(z3.And(p_.sem.out == 0, p_.sem.g == 0, p_.sem.P == 0))
+    for s, v in run_body(ip, th, st, P_B + "pool_size.getter", {}):
+        ok = z3.BoolVal(False)
+        if isinstance(v, ExtV):
+            ok = v.same(p_.size)
+        elif isinstance(v, IntV):
+            ok = p_.size.eq_int(v.t)
+        ip.require(s, "getter[idle]:post:reports-the-configured-maximum-when-nothing-is-in-flight", ok, ("C15",))
     # setter, tasks possibly in flight (U4 is NOT assumed here)
     st = th.initial()
     value = ExtV(fresh("a_value_inf", B), fresh("a_value", I))
